@@ -127,7 +127,7 @@ func mentionsSyncTypes(f *ast.File) bool {
 		if se, ok := n.(*ast.SelectorExpr); ok {
 			if x, ok := se.X.(*ast.Ident); ok && x.Name == "sync" {
 				switch se.Sel.Name {
-				case "Mutex", "RWMutex", "Once", "OnceFunc", "OnceValue", "OnceValues":
+				case "Mutex", "RWMutex", "Once", "OnceFunc", "OnceValue", "OnceValues", "Cond", "NewCond":
 					found = true
 				}
 			}
@@ -285,7 +285,7 @@ func (rw *rewriter) swapSync(f *ast.File) {
 		}
 		if x, ok := se.X.(*ast.Ident); ok && x.Name == "sync" && x.Obj == nil {
 			switch se.Sel.Name {
-			case "Mutex", "RWMutex", "Once", "OnceFunc", "OnceValue", "OnceValues":
+			case "Mutex", "RWMutex", "Once", "OnceFunc", "OnceValue", "OnceValues", "Cond", "NewCond":
 				se.X = ast.NewIdent(simName)
 			}
 		}
